@@ -314,18 +314,16 @@ func TestC16(t *testing.T) {
 
 	// a crasher found by the native fuzzer (thorough tier) is turned into a replayable violation here
 	if ff := os.Getenv("VERIF_FUZZFILE"); ff != "" {
-		b, err := os.ReadFile(ff)
+		b, err := hx.ParseFuzzFile(ff)
 		if err != nil {
 			t.Fatalf("INFRA: %v", err)
 		}
-		lines := strings.Split(strings.TrimSpace(string(b)), "\n")
-		in := ""
-		if len(lines) >= 2 && strings.HasPrefix(lines[1], "string(") {
-			if u, err := strconv.Unquote(strings.TrimSuffix(strings.TrimPrefix(lines[1], "string("), ")")); err == nil {
-				in = u
-			}
+		if os.Getenv("VERIF_FUZZTARGET") == "FuzzC16Uci" {
+			c, _ := fuzzUciCase(string(b))
+			hx.Enum(r, "uci-fuzz-crasher", false, func(yield func(uciLinesCase) bool) { yield(c) }, propC16Uci)
+			return
 		}
-		hx.Enum(r, "fen-fuzz-crasher", false, func(yield func(fenCase) bool) { yield(fenCase{Input: in}) }, propC16Fen)
+		hx.Enum(r, "fen-fuzz-crasher", false, func(yield func(fenCase) bool) { yield(fenCase{Input: string(b)}) }, propC16Fen)
 		return
 	}
 	hx.Sub(r, "fen-mutated", r.N(30000, 300000), func(t *rapid.T) fenCase {
